@@ -4,7 +4,9 @@
 cd /repo && git status --short | grep -q . && { echo "/repo not clean"; exit 2; }
 # runs against a changed tree must not leave their evidence behind
 KEEP=$(mktemp -d /tmp/evidence.keep.XXXXXX); cp -a /verif/evidence/. "$KEEP"/
-for d in /verif/seeded/*/; do
+# optional argument: a glob over the seed directory names (default: all), e.g. tools/all_seeds.sh 'C??-9-*'
+PAT=${1:-*}
+for d in /verif/seeded/$PAT/; do
   name=$(basename $d); id=${name%%-*}
   # a change that breaks its property by way of another property's territory (freed memory, closures) is
   # reported by that property's check: check_with.txt names it
